@@ -23,7 +23,7 @@ from vmc.strictparse import parse_all
 PROPERTY = "C16"
 LEVEL = "exploration"
 RULE = (
-    "cases = configuration (12) x server state (3) x operation with keyword arguments (~170) x stack (5 besides "
+    "cases = configuration (14) x server state (3) x operation with keyword arguments (~170) x stack (5 besides "
     "Client); each case is one call on a fresh stack over a fresh reference server; non-trivial = the baseline's "
     "outcome depends on the configuration or state (all do by construction); distinct = distinct (config, state, call)"
 )
@@ -58,7 +58,20 @@ CONFIGS = {
     "timeouts": {"connect_timeout": 3, "timeout": 7},
     "no_delay": {"no_delay": True},
     "prefix+noreply_off+utf8": {"key_prefix": "q/", "default_noreply": False, "encoding": "utf8"},
+    "tls": {"tls_context": "<per-net TLS context>"},
+    "keepalive": {"socket_keepalive": "<KeepaliveOpts(idle=7, intvl=3, cnt=4)>"},
 }
+
+
+def materialise(cfg, net):
+    """Configuration values that must be built per simulated network."""
+    out = dict(cfg)
+    if "tls_context" in out:
+        out["tls_context"] = net.tls()
+    if "socket_keepalive" in out:
+        from pymemcache.client.base import KeepaliveOpts
+        out["socket_keepalive"] = KeepaliveOpts(idle=7, intvl=3, cnt=4)
+    return out
 STATES = {
     "miss": b"",
     "numeric": b"set k 0 0 1\r\n5\r\nset m 0 0 1\r\n6\r\n",
@@ -159,7 +172,7 @@ def observe(stack, cfg, state, call, first=None):
         if cfg.get("allow_unicode_keys"):
             it.keys = [prefix + UK.encode("utf8")]
             srv.execute(it)
-    obj = build(stack, net, cfg)
+    obj = build(stack, net, materialise(cfg, net))
     if not hasattr(type(obj), name) and name.startswith("__"):
         return None
     if first is not None:
@@ -181,6 +194,8 @@ def observe(stack, cfg, state, call, first=None):
     cmds = [shorten(c.astuple()) if hasattr(c, "astuple") else ("MALFORMED", c.raw[:40]) for (call_, cid, c, o) in srv.log if call_ == 1]
     opts = sorted({(e[4], e[5], e[6]) for e in net.events if e[2] == "setsockopt"})
     touts = sorted({(e[2], repr(e[-1])) for e in net.events if e[2] in ("connect", "sendall", "recv")})
+    # TLS: how many sockets were wrapped, and was anything sent or received on an unwrapped one
+    touts.append(("tls-wrapped", sum(1 for e in net.events if e[2] == "wrap") > 0, len(net.raw_io)))
     return res, cmds, opts, touts
 
 
